@@ -72,6 +72,21 @@ class Ctx:
         self.analysed_modules.add(name)
         return m
 
+    def guard(self, fn, *a, **kw):
+        """Run one rule function; an anchor that cannot be found makes that rule undecided without silencing the others."""
+        try:
+            return fn(*a, **kw)
+        except Incomplete as e:
+            self.undecided("anchor", None, None, construct=f"{getattr(fn, '__name__', 'rule')}: {e}", detail=str(e))
+            return None
+        except (AttributeError, IndexError, KeyError, TypeError, ValueError) as e:
+            # the code no longer has the shape this rule can read: undecided (exit 2), never a violation
+            import traceback
+            tb = traceback.extract_tb(e.__traceback__)[-1]
+            self.undecided("anchor", None, None, construct=f"{getattr(fn, '__name__', 'rule')}: unreadable code shape",
+                           detail=f"{type(e).__name__}: {e} (at {tb.filename.split('/')[-1]}:{tb.lineno})")
+            return None
+
     def touch(self, s: Scope):
         self.analysed_functions.add(s.qualname)
         self.analysed_modules.add(s.module.name)
